@@ -69,6 +69,8 @@ def mutex_prop(pid, pbit, fair_only=False):
         H(MUTEX, "step_base", "hold", est_s=5, bounds="base case of the invariant: fresh mutex + fresh future"),
         H(MUTEX, "hist_%s_n5" % tag, "hold", replay=("mutex_hist_noop", cfg), mask=P(pbit), est_s=90,
           bounds="E-HIST: K=3 slots (re-creatable), N=5 operations from new(), 11-way alphabet, wakers A|B"),
+        H(MUTEX, "hist_%s_p3_n7" % tag, "hold", replay=("mutex_hist_noop", cfg | (3 << 2)), mask=P(pbit), est_s=100,
+          bounds="E-HIST: K=3, N=7 operations of which the first 3 are fixed to 'poll lock future #k' (partition)"),
         H(MUTEX, "witness_hist_n5", "witness", replay=("mutex_hist_noop", 2), mask=PALL, witness_bit=1, est_s=100,
           bounds="witness twin: N=5, must reach 'two pending, unlock wakes one'"),
     ]
@@ -77,6 +79,8 @@ def mutex_prop(pid, pbit, fair_only=False):
           timeout=3000, bounds="E-HIST: K=3, N=7"),
         H(MUTEX, "hist_%s_n6_check" % tag, "hold", replay=("mutex_hist_check", cfg), mask=P(pbit), est_s=400,
           timeout=3000, bounds="E-HIST: K=3, N=6, MutexType=CheckLock"),
+        H(MUTEX, "hist_%s_p3_n8" % tag, "hold", replay=("mutex_hist_noop", cfg | (3 << 2)), mask=P(pbit), est_s=600,
+          timeout=3000, bounds="E-HIST: K=3, N=8 with 3-poll prefix"),
         H(MUTEX, "hist_%s_n8" % tag, "hold", replay=("mutex_hist_noop", cfg), mask=P(pbit), est_s=3000,
           timeout=3400, bonus=True, bounds="E-HIST: K=3, N=8 (bonus: reported if it finishes)"),
     ]
@@ -147,7 +151,8 @@ PROPS = {
     "C05": sem_prop("C05", 5, [("x", 2)], ["step_c05", "step_c05_wide"]),
     "C06": sem_prop("C06", 6, [("u", 0), ("f", 1)],
                     ["step_c06_poll", "step_c06_drop", "step_c06_release", "step_c06_try"],
-                    extra_quick=[H(SEM, "witness_cancel_head_p2_n4", "witness", replay=("sem_hist_noop", sem_cfg(2, 2)),
+                    extra_quick=[H(SEM, "hist_c06_u_p1_n5", "hold", replay=("sem_hist_noop", sem_cfg(0, 1)), mask=P(6), est_s=500, est_gb=3.5, timeout=900,
+                                   bounds="E-HIST unfair: 5 operations, the first fixed to 'poll future #0' (reaches waker replacement on a re-queued future)"),H(SEM, "witness_cancel_head_p2_n4", "witness", replay=("sem_hist_noop", sem_cfg(2, 2)),
                                    mask=PALL, witness_bit=2, est_s=120,
                                    bounds="witness twin: must reach 'pending head cancelled with a waiter behind'")]),
     "C07": sem_prop("C07", 7, [("f", 1)], ["step_c07"]),
@@ -335,6 +340,11 @@ def c11_prop():
     quick.append(mpmc_hist("c11", 11, 1, "cl", 3, 5))
     quick.append(mpmc_hist("c11", 11, 0, "cl", 3, 5))
     quick.append(mpmc_hist("c11", 11, 2, "cl", 0, 4))
+    quick.append(H(LIFE, "life_mpmc_discard", "hold", replay=("life_mpmc_discard", 0), mask=P(11), est_s=40,
+                   bounds="shared mpmc (public API, no futures): capacity 2, 0-2 buffered values, optional receiver clone, optional explicit close from "
+                          "either side, receiver handles dropped in a symbolic order: the LAST receiver discards the buffer immediately and closes"))
+    quick.append(H(LIFE, "life_witness_mpmc_discard", "witness", replay=("life_mpmc_discard", 0), mask=PALL, witness_bit=2 | 8, est_s=40,
+                   bounds="witness twin: two values buffered, closed by the sender, then the only receiver is dropped"))
     quick.append(H(LIFE, "life_state_n3", "hold", replay=("life_state", 0), mask=P(11), est_s=200,
                    bounds="E-HIST lifecycle, shared state-broadcast: up to 2+2 handles, 3 clone/drop operations"))
     thorough = quick + [
@@ -540,6 +550,9 @@ def c17_prop():
           bounds="E-HIST mpmc capacity 1 with a ChannelStream: items = what successive receives return, None once closed and drained, terminated from then on"),
         H(MPMC, "hist_c17_c0_st_p0_n4", "hold", replay=("mpmc_hist_noop", mpmc_cfg(0, "st", 0, 1)), mask=P(17), est_s=300, est_gb=4,
           bounds="E-HIST mpmc capacity 0 with a ChannelStream, N=4"),
+        mpmc_hist("c17", 17, 0, "ca", 5, 5),
+        mpmc_hist("c17", 17, 1, "ca", 3, 5),
+        H(MPMC, "step_c17_c2_dc", "step", est_s=60, est_gb=1.5, bounds="E-STEP mpmc capacity 2 drop/cancel: cancel() terminates the send future in every state"),
         H(MPMC, "witness_stream_c1", "witness", replay=("mpmc_hist_noop", 1 | (1 << 4) | (1 << 8) | ((1 | 2 | 128) << 12)), mask=PALL, witness_bit=16, est_s=300, est_gb=4,
           bounds="witness twin: the stream yields an item and later None"),
         H(LIFE, "life_c17_state_n4", "hold", replay=("life_state", 0), mask=P(17), est_s=400, est_gb=8, timeout=900,
@@ -599,7 +612,8 @@ def _c16(prop, tier, seed):
 CUSTOM = {"C16": _c16}
 PROPS["C08"] = mpmc_prop("C08", 8, [(0, "sr", 0, 4), (1, "sr", 0, 4), (1, "tr", 0, 4), (0, "ca", 0, 4), (1, "ca", 0, 4), (1, "cl", 3, 5), (0, "cl", 3, 5), (2, "tr", 0, 4)],
                         extra_quick=MPMC_WITNESSES[:1])
-PROPS["C09"] = mpmc_prop("C09", 9, [(0, "sr", 0, 4), (1, "sr", 0, 4), (1, "tr", 0, 4), (2, "tr", 0, 4), (0, "sr", 5, 5), (1, "sr", 3, 5), (2, "sr", 3, 5), (1, "ca", 0, 4)],
+PROPS["C09"] = mpmc_prop("C09", 9, [(0, "sr", 0, 4), (1, "sr", 0, 4), (1, "tr", 0, 4), (2, "tr", 0, 4), (0, "sr", 5, 5), (1, "sr", 3, 5), (2, "sr", 3, 5), (1, "ca", 0, 4),
+                                    (1, "sr", 6, 5), (1, "tr", 6, 5), (2, "tr", 6, 6)],
                         extra_quick=MPMC_WITNESSES[:1])
 PROPS["C10"] = mpmc_prop("C10", 10, [(0, "sr", 0, 4), (1, "sr", 0, 4), (0, "sr", 5, 5), (1, "sr", 4, 5), (1, "cl", 3, 5), (0, "cl", 3, 5), (2, "sr", 4, 5), (1, "tr", 0, 4)],
                         extra_quick=MPMC_WITNESSES)
@@ -639,11 +653,13 @@ PROPS["C16"] = {
 def decode_mutex(cfg, script):
     out = []
     it = iter(script)
+    pre, cfg = (cfg >> 2) & 3, cfg & 3
     if cfg == 2:
         out.append("fair=%s" % bool(next(it, 0)))
     else:
         out.append("fair=%s" % (cfg == 1))
-    for op in it:
+    ops = [2 * k for k in range(pre)] + list(it)
+    for op in ops:
         if op < 6:
             out.append("poll lock-future #%d with waker %s (re-created first if dropped)" % (op // 2, "AB"[op % 2]))
         elif op < 9:
@@ -745,6 +761,8 @@ def decode_life(cfg, script):
     return out
 
 
+DECODERS["life_mpmc_discard"] = decode_raw
+DECODERS["life_mpmc_discard_check"] = decode_raw
 for _n in ("life_mpmc", "life_oneshot", "life_oneshot_bc", "life_state", "life_mpmc_check", "life_oneshot_bc_check", "life_state_check"):
     DECODERS[_n] = decode_life
 def decode_recv(kind):
